@@ -695,6 +695,30 @@ def handcrafted_files():
     outer = api.Project()
     outer.new_module(api.m.MetaModule, project=mid, user_defined_controllers=96)
     out.append(("nested-metamodule-sampler-slot127", outer.read()))
+    # a MetaModule exposing one controller of every range KIND (signed, compact, no-offset, unit-dependent, enum, bool, zero-based),
+    # all holding non-default values, stand-alone and inside a project: whatever is edited afterwards, these keep their values
+    emb = api.Project()
+    amp = emb.new_module(api.m.Amplifier, balance=-77, bipolar_dc_offset=-100, inverse=True, volume=300)
+    ms = emb.new_module(api.m.MultiSynth, transpose=-60)
+    vp = emb.new_module(api.m.VorbisPlayer, finetune=-99)
+    lfo = emb.new_module(api.m.Lfo, waveform=api.m.Lfo.Waveform.saw)
+    for x in (amp, ms, vp, lfo):
+        x >> emb.output
+
+    def idx(mod, name):
+        return list(type(mod).controllers).index(name)
+    mm = api.m.MetaModule(project=emb)
+    targets = [(amp, "balance"), (amp, "bipolar_dc_offset"), (amp, "inverse"), (amp, "volume"), (ms, "transpose"), (vp, "finetune"), (lfo, "waveform"), (lfo, "freq")]
+    mm.user_defined_controllers = len(targets)
+    for i, (mod, name) in enumerate(targets):
+        mm.mappings.values[i] = mm.Mapping((mod.index, idx(mod, name)))
+        mm.user_defined[i].label = name
+    mm.update_user_defined_controllers()
+    out.append(("metamodule-every-range-kind.sunsynth", api.Synth(mm).read()))
+    holder = api.Project()
+    holder.attach_module(mm)
+    mm >> holder.output
+    out.append(("metamodule-every-range-kind.sunvox", holder.read()))
     return out
 
 
